@@ -5,7 +5,7 @@
     bytes, lifted to ∀ with forallb_forall. *)
 From Coq Require Import NArith List String Bool Lia.
 From P9V Require Import Codec.Layout Codec.LayoutProofs Codec.Frame Codec.FrameProofs
-  Codec.Reuse Codec.ReuseProofs Codec.Spec9P gen.ConstGen gen.CodecGen.
+  Codec.Reuse Codec.Spec9P gen.ConstGen gen.CodecGen.
 Import ListNotations.
 Open Scope N_scope.
 
@@ -127,22 +127,3 @@ Definition narrowed_ok (e : string * list string) : bool :=
 Lemma narrowed_are_fids : forallb narrowed_ok gen_narrowed = true.
 Proof. vm_compute. reflexivity. Qed.
 
-(** ---- C18: every decode program defines every field of its struct ---- *)
-
-Definition post_of (g : gen_msg) : list string :=
-  match find (fun e => String.eqb (fst e) (gm_go g)) gen_receiver_resets with
-  | Some e => snd e
-  | None => []
-  end.
-
-Definition pre_of (g : gen_msg) : list string :=
-  match gm_payload g with Some p => [p] | None => [] end.
-
-Definition covers_gen (g : gen_msg) : bool :=
-  covers2 (payload_name g) (pre_of g) (post_of g) (gm_dec g) (gm_fields g).
-
-Lemma all_covered : forallb covers_gen gen_msgs = true.
-Proof. vm_compute. reflexivity. Qed.
-
-Theorem covers_registered g : In g gen_msgs -> covers_gen g = true.
-Proof. intros H. pose proof all_covered as A. rewrite forallb_forall in A. now apply A. Qed.
